@@ -191,4 +191,17 @@ def check(ctx: Ctx) -> str:
     for cname in ("DictLoader", "FunctionLoader"):
         fi = repo.func(f"loaders:{cname}.get_source")
         ctx.check(any(astq.raise_type(r) == "TemplateNotFound" for r in astq.raises(fi.node)), f"{cname}:miss", f"loaders:{cname}.get_source", "miss", f"{cname} must raise TemplateNotFound for a missing name", fi.loc())
+        # ... and exactly then: "the loader has the name" is `name in mapping` / `load_func(name)
+        # is not None` - an empty template ('' is a valid source) is still a hit, so a choice /
+        # prefix loader must not fall through to the next loader for it
+        want_ = {"DictLoader": [("template in self.mapping", False)], "FunctionLoader": None}[cname]
+        for r in astq.raises(fi.node):
+            if astq.raise_type(r) != "TemplateNotFound":
+                continue
+            at_ = astq.guard_atoms(fi.node, r)
+            if cname == "FunctionLoader":
+                lv = [a.targets[0].id for a in ast.walk(fi.node) if isinstance(a, ast.Assign) and isinstance(a.value, ast.Call) and astq.callee(a.value) == "self.load_func" and isinstance(a.targets[0], ast.Name)]
+                want_ = [(f"{lv[0]} is None", True)] if len(lv) == 1 else [("?", True)]
+            ctx.check(at_ == want_, f"{cname}:miss-exact", f"loaders:{cname}.get_source", f"TemplateNotFound raised under {at_}",
+                      f"{cname}.get_source raises TemplateNotFound under {at_}, expected exactly {want_}: with a truthiness test an empty template source counts as missing - ChoiceLoader silently resolves the name to a later loader and PrefixLoader reports a template its loader has as not found", fi.loc(r))
     return __doc__ or ""
